@@ -1121,21 +1121,29 @@ impl OrdWorld {
         for ci in 0..self.colls.len() {
             let name = self.colls[ci].name();
             let c = &mut self.colls[ci];
-            let ks = &keys;
-            let (_, cb) = call(ctx, &cfg, name, "insert (bulk)", "OBulk", false, None, None, || {
-                for (i, k) in ks.iter().enumerate() {
-                    c.insert(*k, first_ver + i as u32);
-                }
-            })?;
-            if ci == 0 {
-                ctx.cb_counts.push(cb);
-            }
-            if let Some(tw) = self.twins[ci].as_mut() {
-                let _ = call(ctx, &cfg, twin_name(name), "insert (bulk)", "OBulk", false, None, None, || {
-                    for (i, k) in ks.iter().enumerate() {
-                        tw.insert(*k, first_ver + i as u32);
+            // in chunks, so that the watchdog's heartbeat keeps beating on a slow machine
+            let mut cb_total = 0u32;
+            for (chunk_no, chunk) in keys.chunks(2000).enumerate() {
+                let base = first_ver + (chunk_no * 2000) as u32;
+                let (_, cb) = call(ctx, &cfg, name, "insert (bulk)", "OBulk", false, None, None, || {
+                    for (i, k) in chunk.iter().enumerate() {
+                        c.insert(*k, base + i as u32);
                     }
                 })?;
+                cb_total = cb_total.saturating_add(cb);
+            }
+            if ci == 0 {
+                ctx.cb_counts.push(cb_total);
+            }
+            if let Some(tw) = self.twins[ci].as_mut() {
+                for (chunk_no, chunk) in keys.chunks(2000).enumerate() {
+                    let base = first_ver + (chunk_no * 2000) as u32;
+                    let _ = call(ctx, &cfg, twin_name(name), "insert (bulk)", "OBulk", false, None, None, || {
+                        for (i, k) in chunk.iter().enumerate() {
+                            tw.insert(*k, base + i as u32);
+                        }
+                    })?;
+                }
             }
         }
         for (i, k) in keys.iter().enumerate() {
@@ -1353,6 +1361,11 @@ impl World for OrdWorld {
         self.gen.generated += 1;
         if self.cfg.sweep_mode == 1 && r.chance(1, 6) {
             return Op::OSweep;
+        }
+        if self.model.len() > 50_000 && r.chance(1, 6) {
+            // clear of a very large arena, then refill
+            self.gen.fill_target = Some(Self::draw_fill_target(&self.cfg, r));
+            return Op::OClear;
         }
         if self.gen.forced_clear_at == Some(self.gen.generated - 1) {
             if r.below(100) < self.gen.fill_pct {
